@@ -4,8 +4,11 @@ For every case the real generator is run with the RNG draws recorded (monkeypatc
 `xgi.generators.{random,uniform}.geometric`, `random.random`, `random.sample`, `np.random.random`,
 `np.random.choice`, `networkx.fast_gnp_random_graph`; `uniform_HSBM` as called by `uniform_HPPM` is wrapped to capture
 the tensor), the property predicate is evaluated on the generated network, and the recorded oracle is replayed
-through the Lean model (Drivers/C16.lean); node sets and edge lists (for chung_lu / dcsbm: node order and the edge
-dict in creation order; for the modelled exceptions: the exception class) are compared.
+through the Lean model (Drivers/C16.lean); node lists (produced by the model, XgiModel/C16/Net.lean) and edge lists (for
+chung_lu / dcsbm: node order and the edge dict in creation order; for the modelled exceptions: the exception class) are
+compared.  Argument shapes: sequences as list / numpy array / tuple where the generator accepts them, the scalar form
+`ps=float, order=int`, integer parameters as numpy integers, `max_order=None`.  Every call runs under a CPU-time budget
+(not wall-clock) and a budget expiry is retried once with ten times the budget before it is reported.
 """
 import glob
 import importlib
@@ -139,23 +142,35 @@ class Rec:
         return out
 
 
+class _WallStall(BaseException):
+    """wall-clock backstop fired (not an Exception: must not be mistaken for an exception of the generator)"""
+
+
 def _alarm(signum, frame):
     raise Timeout()
 
 
-LAST = {"rec": None, "boundary": Counter()}
+def _wall(signum, frame):
+    raise _WallStall()
 
 
-def guarded(fn, seconds=2.0, force=None):
-    """run fn() with the draws recorded (or forced) and a wall-clock limit; returns (value | None, exception | None, rec)"""
-    old = signal.signal(signal.SIGALRM, _alarm)
+LAST = {"rec": None, "boundary": Counter(), "retries": 0}
+
+
+def _attempt(fn, cpu_seconds, force):
+    """one run of fn() with the draws recorded (or forced) under a CPU-time limit: ITIMER_VIRTUAL counts the user time of this
+    process only, so a loaded host cannot trip it.  A generous wall-clock backstop (ITIMER_REAL) catches a call that blocks
+    without using CPU; it is an infrastructure problem (exit 2), never a verdict."""
+    old_v = signal.signal(signal.SIGVTALRM, _alarm)
+    old_r = signal.signal(signal.SIGALRM, _wall)
     rec = Rec(force)
     LAST["rec"] = rec
     try:
         with warnings.catch_warnings():
             warnings.simplefilter("ignore")
             with rec:
-                signal.setitimer(signal.ITIMER_REAL, seconds)
+                signal.setitimer(signal.ITIMER_VIRTUAL, cpu_seconds)
+                signal.setitimer(signal.ITIMER_REAL, 30 * cpu_seconds + 30)
                 try:
                     return fn(), None, rec
                 except Timeout as ex:
@@ -163,9 +178,25 @@ def guarded(fn, seconds=2.0, force=None):
                 except Exception as ex:  # noqa
                     return None, ex, rec
                 finally:
+                    signal.setitimer(signal.ITIMER_VIRTUAL, 0)
                     signal.setitimer(signal.ITIMER_REAL, 0)
+    except _WallStall:
+        raise Infra(f"a generator call made no progress for {30 * cpu_seconds + 30:.0f} s of wall time without using its "
+                    f"{cpu_seconds} s CPU budget (blocked process / overloaded host)")
     finally:
-        signal.signal(signal.SIGALRM, old)
+        signal.signal(signal.SIGVTALRM, old_v)
+        signal.signal(signal.SIGALRM, old_r)
+
+
+def guarded(fn, seconds=2.0, force=None):
+    """run fn() under a CPU-time budget; when the budget expires the call is repeated once from scratch with ten times the
+    budget, and only a second expiry is returned as Timeout (reported by the callers as non-termination).
+    fn must build its arguments afresh on every call.  Returns (value | None, exception | None, rec)."""
+    val, ex, rec = _attempt(fn, seconds, force)
+    if isinstance(ex, Timeout):
+        LAST["retries"] += 1
+        val, ex, rec = _attempt(fn, 10 * seconds, force)
+    return val, ex, rec
 
 
 def kind(p):
@@ -191,6 +222,21 @@ def snapshot(H):
     nodes = [int(n) for n in H.nodes]
     edges = [sorted(int(x) for x in e) for e in H.edges.members()]
     return {"nodes": sorted(nodes), "node_list": nodes, "edges": edges}
+
+
+def shaped(v, shape):
+    """the list `v` passed the way `shape` says: list | array | tuple | scalar (python number) | npscalar | int | npint"""
+    if shape == "array":
+        return np.array(v)
+    if shape == "tuple":
+        return tuple(v)
+    if shape in ("scalar", "int"):
+        return v[0]
+    if shape == "npscalar":
+        return np.float64(v[0])
+    if shape == "npint":
+        return np.int64(v[0])
+    return list(v)
 
 
 def all_subsets(nodes, m):
@@ -304,12 +350,30 @@ def run_case(case):
     fails, req, ordered = [], None, True
 
     def out(snap, ex):
+        if isinstance(ex, Timeout):
+            # both attempts (CPU budget, then ten times the budget) expired: reported as non-termination, whatever else
+            fails[:] = [("nonterminating", "no result within the CPU-time budget, nor within ten times that budget on a second attempt")]
         return dict(impl=snap if ex is None else exc_out(ex), fails=fails, req=req, ordered=ordered)
 
+    I = (lambda x: np.int64(x)) if a.get("ints") == "np" else (lambda x: x)    # integer parameters as numpy integers
+
     if f == "fast_random_hypergraph" or f == "random_hypergraph":
+        # ps: list | array of probabilities, or one float (python / numpy) together with a scalar `order`;
+        # order: None | list | array of ints | one int.  `ps`, `order` are stored as lists, the shapes say how they are passed.
         n, ps, order = a["n"], a["ps"], a["order"]
-        H, ex, rec = guarded(lambda: getattr(xgi, f)(n, list(ps), order=None if order is None else list(order), seed=seed),
+        psh, osh = a.get("ps_shape", "list"), a.get("order_shape", "list")
+        H, ex, rec = guarded(lambda: getattr(xgi, f)(I(n), shaped(ps, psh), order=None if order is None else shaped(order, osh), seed=seed),
                              force=case.get("force"))
+        mismatch = order is not None and len(order) != len(ps)
+        if mismatch:
+            # lengths differ: `_check_input_args` must refuse (ValueError); modelled (inputRounds)
+            req = {"f": f, "n": n, "pks": [kind(p) for p in ps], "order": order, "gaps": [], "coins": []}
+            if ex is None:
+                fails.append(("invalid-accepted", f"len(ps) = {len(ps)} but len(order) = {len(order)}, and a network was returned"))
+                return out(snapshot(H), None)
+            if type(ex).__name__ != "ValueError":
+                fails.append(("raises", repr(ex)[:200]))
+            return out(None, ex)
         orders = order if order is not None else [i + 1 for i in range(len(ps))]
         rounds = [(d + 1, p) for d, p in zip(orders, ps)]
         if ex is not None:
@@ -321,17 +385,19 @@ def run_case(case):
         if len({s for s, _ in rounds}) == len(rounds):
             fails += pred_nodup(H, snap)
         if f == "fast_random_hypergraph":
-            req = {"f": f, "n": n, "rounds": [[s, kind(p)] for s, p in rounds], "gaps": rec.gap_list()}
+            req = {"f": f, "n": n, "pks": [kind(p) for p in ps], "order": order, "gaps": rec.gap_list()}
         else:
             coins, it = [], iter(rec.rands)
             for s, p in rounds:
-                coins += [next(it) <= p for _ in range(math.comb(n, s))]
-            req = {"f": f, "n": n, "sizes": [s for s, _ in rounds], "coins": coins, "extra": len(list(it))}
+                coins += [r <= p for r in itertools.islice(it, math.comb(n, s))]
+            # `extra` != 0: the code drew more / fewer numbers than one per candidate edge (a correspondence failure)
+            req = {"f": f, "n": n, "pks": [kind(p) for p in ps], "order": order, "coins": coins,
+                   "extra": len(rec.rands) - sum(math.comb(n, s) for s, _ in rounds)}
         return out(snap, None)
 
     if f == "uniform_erdos_renyi_hypergraph":
         n, m, p, multi, ptype = a["n"], a["m"], a["p"], a["multiedges"], a.get("p_type", "prob")
-        H, ex, rec = guarded(lambda: xgi.uniform_erdos_renyi_hypergraph(n, m, p, p_type=ptype, multiedges=multi, seed=seed),
+        H, ex, rec = guarded(lambda: xgi.uniform_erdos_renyi_hypergraph(I(n), I(m), p, p_type=ptype, multiedges=multi, seed=seed),
                              force=case.get("force"))
         if ptype == "degree":
             req = {"f": "uniform_erdos_renyi_degree", "n": n, "m": m, "p": frac(p), "multi": bool(multi), "gaps": rec.gap_list()}
@@ -386,7 +452,7 @@ def run_case(case):
     if f == "uniform_HSBM":
         m, sizes, p = a["m"], a["sizes"], np.array(a["p"], dtype=float)
         n = sum(sizes)
-        H, ex, rec = guarded(lambda: xgi.uniform_HSBM(n, m, p, list(sizes), seed=seed), force=case.get("force"))
+        H, ex, rec = guarded(lambda: xgi.uniform_HSBM(I(n), I(m), p, shaped(sizes, a.get("sizes_shape", "list")), seed=seed), force=case.get("force"))
         if ex is not None:
             fails.append(("p1-raises" if (p == 1).any() else "raises", repr(ex)[:200]))
             return out(None, ex)
@@ -418,7 +484,7 @@ def run_case(case):
 
     if f == "uniform_HPPM":
         n, m, k, eps, rho = a["n"], a["m"], a["k"], a["epsilon"], a["rho"]
-        H, ex, rec = guarded(lambda: xgi.uniform_HPPM(n, m, k, eps, rho, seed=seed))
+        H, ex, rec = guarded(lambda: xgi.uniform_HPPM(I(n), I(m), k, eps, rho, seed=seed))
         req = {"f": f, "n": n, "m": m, "k": frac(k), "epsilon": frac(eps), "rho": frac(rho), "gaps": rec.gap_list()}
         from fractions import Fraction
         K, E, R = Fraction(k), Fraction(eps), Fraction(rho)
@@ -470,8 +536,8 @@ def run_case(case):
 
     if f == "complete_hypergraph":
         n = a["n"]
-        kw = {k: v for k, v in a.items() if k != "n"}
-        H, ex, rec = guarded(lambda: xgi.complete_hypergraph(n, **kw))
+        kw = {k: v for k, v in a.items() if k not in ("n", "ints")}
+        H, ex, rec = guarded(lambda: xgi.complete_hypergraph(I(n), **{k: (I(v) if k != "include_singletons" else v) for k, v in kw.items()}))
         if ex is not None:
             fails.append(("raises", repr(ex)[:200]))
             return out(None, ex)
@@ -490,8 +556,7 @@ def run_case(case):
 
     if f == "uniform_hypergraph_configuration_model":
         k0, m = {int(i): int(d) for i, d in a["k"]}, a["m"]
-        k = dict(k0)
-        H, ex, rec = guarded(lambda: xgi.uniform_hypergraph_configuration_model(k, m, seed=seed))
+        H, ex, rec = guarded(lambda: xgi.uniform_hypergraph_configuration_model(dict(k0), I(m), seed=seed))
         if ex is not None:
             fails.append(("raises", repr(ex)[:200]))
             return out(None, ex)
@@ -583,7 +648,7 @@ def run_case(case):
 
     if f == "watts_strogatz_hypergraph":
         n, d, k, l, p = a["n"], a["d"], a["k"], a["l"], a["p"]
-        H, ex, rec = guarded(lambda: xgi.watts_strogatz_hypergraph(n, d, k, l, p, seed=seed))
+        H, ex, rec = guarded(lambda: xgi.watts_strogatz_hypergraph(I(n), I(d), I(k), I(l), p, seed=seed))
         coins = [bool(float(x) < p) for x in rec.nprand]
         choices = [[int(x) for x in np.atleast_1d(c[3])] for c in rec.npchoice]
         req = {"f": f, "n": n, "d": d, "k": k, "l": l, "coins": coins, "choices": choices}
@@ -630,7 +695,7 @@ def run_case(case):
 
     if f == "ring_lattice":
         n, d, k, l = a["n"], a["d"], a["k"], a["l"]
-        H, ex, rec = guarded(lambda: xgi.ring_lattice(n, d, k, l))
+        H, ex, rec = guarded(lambda: xgi.ring_lattice(I(n), I(d), I(k), I(l)))
         if ex is not None:
             fails.append(("raises", repr(ex)[:200]))
             return out(None, ex)
@@ -645,9 +710,9 @@ def run_case(case):
 
     if f == "sunflower":
         l, c, m = a["l"], a["c"], a["m"]
-        H, ex, rec = guarded(lambda: xgi.sunflower(l, c, m), seconds=0.3)
+        H, ex, rec = guarded(lambda: xgi.sunflower(I(l), I(c), I(m)), seconds=0.3)
         if ex is not None:
-            fails.append(("nonterminating" if isinstance(ex, Timeout) else "raises", repr(ex)[:200]))
+            fails.append(("raises", repr(ex)[:200]))
             return out(None, ex)
         snap = snapshot(H)
         want_nodes = range(c + l * (m - c)) if l > 0 else []
@@ -664,7 +729,7 @@ def run_case(case):
 
     if f == "star_clique":
         ns, nc, dm = a["n_star"], a["n_clique"], a["d_max"]
-        H, ex, rec = guarded(lambda: xgi.star_clique(ns, nc, dm))
+        H, ex, rec = guarded(lambda: xgi.star_clique(I(ns), I(nc), I(dm)))
         if ex is not None:
             fails.append(("raises", repr(ex)[:200]))
             return out(None, ex)
@@ -685,7 +750,7 @@ def run_case(case):
             kw["create_using"] = xgi.Hypergraph
         elif cu == "instance":
             kw["create_using"] = xgi.Hypergraph([[7, 8], [8, 9, 10]])
-        H, ex, rec = guarded(lambda: xgi.trivial_hypergraph(n, **kw) if n >= 0 else xgi.empty_hypergraph(**kw))
+        H, ex, rec = guarded(lambda: xgi.trivial_hypergraph(I(n), **kw) if n >= 0 else xgi.empty_hypergraph(**kw))
         if ex is not None:
             fails.append(("raises", repr(ex)[:200]))
             return out(None, ex)
@@ -711,7 +776,7 @@ def run_case(case):
 
     if f == "random_simplicial_complex":
         n, ps = a["n"], a["ps"]
-        H, ex, rec = guarded(lambda: xgi.random_simplicial_complex(n, list(ps), seed=seed))
+        H, ex, rec = guarded(lambda: xgi.random_simplicial_complex(I(n), shaped(ps, a.get("ps_shape", "list")), seed=seed))
         if ex is not None:
             fails.append(("p1-raises" if any(p == 1 for p in ps) else "raises", repr(ex)[:200]))
             return out(None, ex)
@@ -738,9 +803,9 @@ def run_case(case):
         if f.startswith("random"):
             n, p = a["n"], a["p"]
             if f == "random_flag_complex":
-                H, ex, rec = guarded(lambda: xgi.random_flag_complex(n, p, max_order=mo, seed=seed))
+                H, ex, rec = guarded(lambda: xgi.random_flag_complex(I(n), p, max_order=None if mo is None else I(mo), seed=seed))
             else:
-                H, ex, rec = guarded(lambda: xgi.random_flag_complex_d2(n, p, seed=seed))
+                H, ex, rec = guarded(lambda: xgi.random_flag_complex_d2(I(n), p, seed=seed))
                 mo = 2
             gedges = sorted(sorted(e) for e in rec.graphs[0].edges()) if rec.graphs else None
             if ex is None and gedges is None:
@@ -760,7 +825,7 @@ def run_case(case):
             G.add_nodes_from(vs)
             G.add_edges_from(ins)
             if f == "flag_complex":
-                H, ex, rec = guarded(lambda: xgi.flag_complex(G, max_order=mo, ps=ps, seed=seed))
+                H, ex, rec = guarded(lambda: xgi.flag_complex(G, max_order=None if mo is None else I(mo), ps=None if ps is None else shaped(ps, a.get("ps_shape", "list")), seed=seed))
             else:
                 H, ex, rec = guarded(lambda: xgi.flag_complex_d2(G, p2=a.get("p2"), seed=seed))
                 ps = None if a.get("p2") is None else [a["p2"]]
@@ -769,7 +834,15 @@ def run_case(case):
             fails.append(("raises", repr(ex)[:200]))
             return out(None, ex)
         snap = snapshot(H)
-        top = n if mo is None else mo
+        top = n if mo is None else mo      # max_order=None: no bound (the faces of the maximal cliques)
+        single = [e for e in snap["edges"] if len(e) == 1]
+        if single:
+            # a flag complex holds the cliques with at least two nodes (that is what every int max_order produces); a node
+            # without neighbours is a node of the complex, not a simplex.  Reported on its own, the remaining clauses are
+            # evaluated on the simplices with >= 2 nodes.
+            fails.append(("singleton-simplex", f"max_order={mo}: 1-node simplices {single[:3]} (nodes without neighbours) although "
+                                               f"no other node is a simplex: not the cliques of the graph under either reading"))
+            snap = dict(snap, edges=[e for e in snap["edges"] if len(e) != 1])
         fails += pred_common(H, snap, range(n)) + pred_nodup(H, snap) + downward_closed(snap)
         cl = cliques_of(range(n), gedges, 2, top + 1)
         got = sorted(snap["edges"])
@@ -794,11 +867,13 @@ def run_case(case):
             listed = rec.cliques[0] if rec.cliques else []
             coins, picked = iter(rec.rands), []
             if f == "flag_complex_d2":
-                picked = [c for c in listed if next(coins) <= ps[0]]
+                picked = [c for c in listed if next(coins, 2.0) <= ps[0]]    # 2.0: a draw the code did not make
             else:
                 for i, p in enumerate(ps[: top - 1]):
-                    picked += [c for c in listed if len(c) == i + 3 and next(coins) <= p]
+                    picked += [c for c in listed if len(c) == i + 3 and next(coins, 2.0) <= p]
             req = {"f": "flag_complex_ps", "n": n, "edges": gedges, "max_order": top, "picked": picked, "extra": len(list(coins))}
+        if single:
+            req = None       # the model describes the complex without 1-node simplices; the predicate failure above is the report
         ordered = False
         return out(snap, None)
 
@@ -880,11 +955,21 @@ def geometric_boundaries(ctx):
 
 # ------------------------------------------------------------------------------------------- case generation
 
+# generators whose int parameters are dict contents / graphs / absent: the numpy-integer variant does not apply
+NO_NP_INTS = {"chung_lu_hypergraph", "dcsbm_hypergraph", "flag_complex_d2", "empty_dihypergraph", "empty_simplicial_complex"}
+
+
 def gen_cases(ctx, scale=1):
     rng = ctx.rng
     seeds = lambda k: [rng.randrange(10 ** 6) for _ in range(k * scale)]
     cases = []
-    add = lambda f, args, seed=None: cases.append({"f": f, "args": args, "seed": seed})
+    def add(f, args, seed=None):
+        # integer parameters are passed as numpy integers in a quarter of the cases (results of numpy arithmetic are what
+        # callers often have in hand); the flag is part of the case, hence of the replay
+        # (not for the mean-degree arithmetic on n = 0, where numpy integers turn Python's ZeroDivisionError into inf / nan)
+        if rng.random() < 0.25 and f not in NO_NP_INTS and not (args.get("n") == 0 and (f == "uniform_HPPM" or args.get("p_type") == "degree")):
+            args = dict(args, ints="np")
+        cases.append({"f": f, "args": args, "seed": seed})
     q = ctx.quick
 
     # fast_random_hypergraph / random_hypergraph
@@ -900,9 +985,29 @@ def gen_cases(ctx, scale=1):
                 ps = [rng.choice(PS) for _ in order]
             if rng.random() < 0.1:
                 ps[rng.randrange(len(ps))] = rng.choice([1e-18, 1e-12, 1 - 1e-16, 0.5])
-            add("fast_random_hypergraph", {"n": n, "ps": ps, "order": order}, rng.randrange(10 ** 6))
+            # how the arguments are passed: lists or numpy arrays (independently), probabilities 0 / 1 as ints or floats
+            shapes = {"ps_shape": rng.choice(["list", "list", "array"])}
+            if order is not None:
+                shapes["order_shape"] = rng.choice(["list", "list", "array"])
+            if rng.random() < 0.3:
+                ps = [int(p) if p in (0, 1) and shapes["ps_shape"] == "list" else p for p in ps]
+            add("fast_random_hypergraph", dict({"n": n, "ps": ps, "order": order}, **shapes), rng.randrange(10 ** 6))
             if n <= 6:
-                add("random_hypergraph", {"n": n, "ps": ps, "order": order}, rng.randrange(10 ** 6))
+                add("random_hypergraph", dict({"n": n, "ps": ps, "order": order}, **shapes), rng.randrange(10 ** 6))
+        # the scalar form: one float probability with one int order ("generate a uniform hypergraph")
+        for d in range(0, 5):
+            for p in PS + [0.5]:
+                for _ in range(ctx.n(1, 6) * scale):
+                    sc = {"ps_shape": rng.choice(["scalar", "scalar", "npscalar"]), "order_shape": "int"}
+                    add("fast_random_hypergraph", dict({"n": n, "ps": [float(p)], "order": [d]}, **sc), rng.randrange(10 ** 6))
+                    if n <= 6 and rng.random() < 0.5:
+                        add("random_hypergraph", dict({"n": n, "ps": [float(p)], "order": [d]}, **sc), rng.randrange(10 ** 6))
+        # len(ps) != len(order): refused with ValueError
+        for _ in range(2 * scale):
+            order = rng.sample(range(0, 5), rng.randint(1, 3))
+            ps = [rng.choice(PS) for _ in range(rng.choice([k for k in (1, 2, 3, 4) if k != len(order)]))]
+            f = rng.choice(["fast_random_hypergraph", "random_hypergraph"])
+            add(f, {"n": n, "ps": ps, "order": order, "ps_shape": rng.choice(["list", "array"]), "order_shape": rng.choice(["list", "array"])}, 1)
     # every p of the grid at every (n, order), boundary-heavy
     for n in range(0, ctx.n(6, 9)):
         for d in range(0, 4):
@@ -959,7 +1064,7 @@ def gen_cases(ctx, scale=1):
         mode = rng.random()
         vals = [1.0] if mode < 0.1 else ([0.0, 1.0] if mode < 0.25 else (PS if mode < 0.6 else [0.0, 0.3, 0.9]))
         p = np.array([rng.choice(vals) for _ in range(nb ** m)]).reshape([nb] * m)
-        add("uniform_HSBM", {"m": m, "sizes": sizes, "p": p.tolist()}, rng.randrange(10 ** 6))
+        add("uniform_HSBM", {"m": m, "sizes": sizes, "p": p.tolist(), "sizes_shape": rng.choice(["list", "list", "array", "tuple"])}, rng.randrange(10 ** 6))
     for _ in range(ctx.n(150, 3000) * scale):
         n, m = rng.randint(0, 8), rng.choice([1, 2, 2, 3])
         kk = rng.choice([0, 1, 2, 3, 0.5, 2.5, 6, -1, m * n ** (m - 1), m * n ** (m - 1) / 2])
@@ -1056,17 +1161,22 @@ def gen_cases(ctx, scale=1):
     for n in range(0, ctx.n(6, 7)):
         for _ in range(ctx.n(25, 400) * scale):
             ps = [rng.choice(PS) for _ in range(rng.randint(1, 3))]
-            add("random_simplicial_complex", {"n": n, "ps": ps}, rng.randrange(10 ** 6))
+            add("random_simplicial_complex", {"n": n, "ps": ps, "ps_shape": rng.choice(["list", "list", "array", "tuple"])}, rng.randrange(10 ** 6))
     for _ in range(ctx.n(250, 8000) * scale):
         n = rng.randint(0, 7)
         dens = rng.choice([0.2, 0.5, 0.8, 1.0])
         edges = [list(e) for e in itertools.combinations(range(n), 2) if rng.random() < dens]
-        mo = rng.choice([1, 2, 3, 4])   # documented as int; max_order=None (maximal cliques incl. isolated nodes) is not exercised
+        # max_order: an int, or None = no bound (the maximal-clique branch of _cliques_to_fill; with `ps` that form raises
+        # TypeError in `ps[: max_order - 1]` and is not an admissible combination)
+        mo = rng.choice([1, 2, 3, 4, None, None])
         r = rng.random()
         ps = None if (r < 0.5 or mo is None) else [rng.choice(PS) for _ in range(rng.randint(1, 3))]
-        add("flag_complex", {"n": n, "edges": edges, "max_order": mo, "ps": ps}, rng.randrange(10 ** 6))
+        fa = {"n": n, "edges": edges, "max_order": mo, "ps": ps}
+        if ps is not None and rng.random() < 0.3:
+            fa["ps_shape"] = "tuple"
+        add("flag_complex", fa, rng.randrange(10 ** 6))
         add("flag_complex_d2", {"n": n, "edges": edges, "p2": rng.choice([None, 0.0, 1.0, 0.5])}, rng.randrange(10 ** 6))
-        add("random_flag_complex", {"n": n, "p": rng.choice(PS), "max_order": rng.choice([1, 2, 3])}, rng.randrange(10 ** 6))
+        add("random_flag_complex", {"n": n, "p": rng.choice(PS), "max_order": rng.choice([1, 2, 3, None])}, rng.randrange(10 ** 6))
         add("random_flag_complex_d2", {"n": n, "p": rng.choice(PS)}, rng.randrange(10 ** 6))
     return cases
 
@@ -1082,7 +1192,7 @@ def corpus_cases():
 # ------------------------------------------------------------------------------------------- run
 
 # generators whose exceptions are part of the model (the model must answer the same exception class)
-ERR_MODELLED = {"watts_strogatz_hypergraph", "chung_lu_hypergraph", "dcsbm_hypergraph", "uniform_HPPM", "uniform_erdos_renyi_degree"}
+ERR_MODELLED = {"fast_random_hypergraph", "random_hypergraph", "watts_strogatz_hypergraph", "chung_lu_hypergraph", "dcsbm_hypergraph", "uniform_HPPM", "uniform_erdos_renyi_degree"}
 
 
 def nontrivial(snap):
@@ -1094,6 +1204,11 @@ def evaluate(ctx, cases, reqs, expect):
         r = run_case(case)
         ctx.evaluations += 1
         ctx.stats["gen:" + case["f"]] += 1
+        for kk in ("ps_shape", "order_shape", "sizes_shape", "ints"):
+            if kk in case["args"]:
+                ctx.stats[f"shape:{kk}={case['args'][kk]}"] += 1
+        if "max_order" in case["args"] and case["args"]["max_order"] is None and case["f"].endswith("flag_complex"):
+            ctx.stats["shape:max_order=None"] += 1
         impl = r["impl"]
         if "out" in impl:
             ctx.stats["impl_" + impl["out"]] += 1
@@ -1107,7 +1222,9 @@ def evaluate(ctx, cases, reqs, expect):
             ctx.stats["draws:other"] += len(rec.rands) + len(rec.samples) + sum(int(np.size(x)) for x in rec.nprand)
             if any(not (g >= 1) for g in rec.gaps):
                 ctx.violation("geometric", "gap-below-one", case, detail=f"geometric() returned {[g for g in rec.gaps if not g >= 1][:3]}")
-        ctx.sample({"case": case, "impl": {k: v for k, v in impl.items() if k != "node_list"}}, cap=3)
+        # samples: the first corpus case, then a few cases picked by a case-local coin (not always the same first ones)
+        if not ctx.samples or jhash([ctx.seed, case]).endswith(("00", "01")):
+            ctx.sample({"case": case, "impl": {k: v for k, v in impl.items() if k != "node_list"}}, cap=4)
         if r["req"] is not None and ("out" not in impl or (r["req"]["f"] in ERR_MODELLED and impl["out"] != "err:Timeout")):
             reqs.append(r["req"])
             expect.append((case, impl, r["ordered"]))
@@ -1168,10 +1285,11 @@ def compare(ctx, reqs, expect):
 def run(ctx):
     ok = build_and_audit(ctx, "XgiModel.Props.C16", ["XgiModel.C16.Drive"])
     ctx.rule = ("decoders: every (n, m) / size list up to the bound, all indices; generators: parameter grids (n<=8, m<=4, "
-                "orders 0..4, p in {0, 1, 0.3, 0.9} plus boundary values, degree/size sequences incl. zero / all-zero / saturating "
+                "orders 0..4 as None / list / array / one int, ps as list / array / one float, p in {0, 1, 0.3, 0.9} (0 and 1 also as ints) plus boundary "
+                "values, len(ps) != len(order), int parameters as numpy integers in a quarter of the cases, degree/size sequences incl. zero / all-zero / saturating "
                 "entries, communities and omega matrices with zero blocks, block sizes, mean degrees incl. the ones giving q = 0, 1, > 1, "
                 "HPPM (k, epsilon, rho) incl. out-of-range values, the whole (n, d, k, l) lattice grid x p in {0, .3, .7, 1}, random graphs "
-                "on <=7 nodes) x seeds drawn from VERIF_SEED, RNG draws recorded (or forced) and replayed through the model; "
+                "on <=7 nodes with max_order in {1..4, None}) x seeds drawn from VERIF_SEED, RNG draws recorded (or forced) and replayed through the model; "
                 "non-trivial = distinct generated network with an edge of >= 2 nodes")
     reqs, expect = [], []
     # decoders: exhaustive small scope, model vs helpers vs itertools
@@ -1185,10 +1303,14 @@ def run(ctx):
             ctx.violation(site, cls, {"f": c["f"], "args": {k: v for k, v in c.items() if k != "f"}}, detail=detail)
         reqs.append(c)
         expect.append(({"f": c["f"], "args": c}, impl, True))
-    ctx.exhaustive = True
-    ctx.extra["exhaustive_scope"] = (f"index decoders: _index_to_edge_comb all n<={ctx.n(7, 9)}, m<=n; _index_to_edge_prod n<{ctx.n(5, 7)}, "
-                                     f"m<{ctx.n(4, 5)}; _index_to_edge_partition all size lists of length <={ctx.n(3, 4)} over 0..{ctx.n(4, 5) - 1}; "
-                                     "every valid index, implementation vs model vs itertools (validation of the model and predicate on the code)")
+    # `exhaustive` describes the decoder sweep only, and only the thorough tier reaches the bound the design names (n <= 9);
+    # the generator cases below are sampled in both tiers
+    ctx.exhaustive = not ctx.quick
+    ctx.extra["exhaustive_scope"] = ("ONLY the three index decoders are enumerated completely (every valid index, implementation vs model vs "
+                                     f"itertools): _index_to_edge_comb all n<={ctx.n(7, 9)}, m<=n; _index_to_edge_prod n<{ctx.n(5, 7)}, "
+                                     f"m<{ctx.n(4, 5)}; _index_to_edge_partition all size lists of length <={ctx.n(3, 4)} over 0..{ctx.n(4, 5) - 1}"
+                                     + (" (quick tier: smaller bounds than the thorough sweep, hence exhaustive=false)" if ctx.quick else "")
+                                     + ". The generators are NOT enumerated: parameter grids x sampled seeds.")
     geometric_boundaries(ctx)
     evaluate(ctx, corpus_cases(), reqs, expect)
     evaluate(ctx, gen_cases(ctx), reqs, expect)
@@ -1196,6 +1318,8 @@ def run(ctx):
     for kk, vv in LAST["boundary"].items():
         ctx.stats[kk] += vv
     LAST["boundary"].clear()
+    ctx.stats["cpu-budget-retries"] += LAST["retries"]      # calls repeated with 10x the CPU budget after a first expiry
+    LAST["retries"] = 0
     if (dis or not ok) and not [v for v in ctx.violations if v["kind"] == "concrete"]:
         # search harder on the implementation: the predicate on many more seeds of the generators involved
         more = gen_cases(ctx, scale=4)
@@ -1210,8 +1334,11 @@ def run(ctx):
         "node labels are range(n) (or the integer keys of the degree dict); probabilities enter the model only through the "
         "branch taken (== 0, == 1, otherwise) and through the recorded draws",
         "geometric(p) >= 1 for every draw (checked on every recorded draw, including p = 1e-18, 1-1e-16); np.inf is replayed as 2**40",
-        "uniform_HSBM (probability-1 block), sunflower (m == c) and watts_strogatz_hypergraph (rewiring without replacement) are modelled as "
-        "fixed in /repo (37b746a, d851a3b, 8f2dbb9)",
+        "open finding (known_findings/C16.json): flag_complex / random_flag_complex with max_order=None make isolated nodes 1-node simplices; "
+        "the model describes the behaviour with proposed_fixes/C16-flag-complex-no-singletons.diff applied; cases that show the defect are "
+        "reported by the predicate (class singleton-simplex) and not replayed through the model",
+        "every generator call runs under a CPU-time budget (2 s, sunflower 0.3 s; ITIMER_VIRTUAL) and is repeated once with ten times the "
+        "budget before an expiry is reported as `nonterminating`",
         "itertools.combinations/product, scipy.special.comb, np.prod, networkx.enumerate_all_cliques/fast_gnp_random_graph appear as the pure "
         "functions they are documented to be; SimplicialComplex.add_simplices_from as face closure (C03)",
         "index values below 2**53 (np.prod returns a float for the empty tail in _index_to_edge_partition)",
